@@ -182,7 +182,7 @@ Proof.
   intros (Hg & Hc & Hp & _ & _). unfold compile_gen.
   rewrite (bundle_of_globals_ext _ _ calls Hg).
   destruct (bg_err (bundle_of_globals (o_globals o') calls)) as [[name existing]|]; [reflexivity|].
-  destruct (add_files empty_creg srcs) as [r|e]; [|reflexivity].
+  destruct (add_all_files empty_creg srcs) as [r|e]; [|reflexivity].
   rewrite (first_failure_ext (check_template (o_children o) _) (check_template (o_children o') (find_template (r_templates (cr_reg r)))));
     [|intros t _; apply check_template_ext; [exact Hc | reflexivity]].
   destruct (first_failure (check_template (o_children o') _) _) as [[name e]|]; [reflexivity|].
@@ -195,7 +195,7 @@ Qed.
 Lemma es6_import_block_ext o o' f : orders_ext o o' -> es6_import_block o f = es6_import_block o' f.
 Proof.
   intros (_ & _ & _ & Hi & Hj). unfold es6_import_block.
-  rewrite (js_seq_ext _ _ (sf_body f) (js_node_ext (o_jsmap o) (o_jsmap o') Hj (file_fuel f))).
+  rewrite (js_seq_ext _ _ (sfile_body f) (js_node_ext (o_jsmap o) (o_jsmap o') Hj (file_fuel f))).
   destruct (js_seq _ _ _) as [e|st]; [reflexivity|]. destruct (j_called st); [reflexivity|]. rewrite Hi. reflexivity.
 Qed.
 
